@@ -11,7 +11,7 @@ Request (one line):
 
 Response (real code and Lean model, compared as strings):
 
-    (ok (known cls...) (stmts ("text" l1 l2)...) (fp FACTS) (regex FACTS|skipped) (hist FACTS|skipped ...))
+    (ok (known cls...) (stmts ("text" l1 l2)...) (fp FACTS) (regex FACTS|skipped) (hist FACTS|skipped ...) (lost B ...))
 
 * ``stmts``  ``FortranReader(src).sanitized_lines`` (text, span) vs the Lean ``Reader`` model
 * ``fp``     facts extracted from the real FP frontend vs Lean ``discover`` with all classes
@@ -274,6 +274,16 @@ def block_class_alone(u):
     return u is not None and bool(u & {'td', 'if'}) and not {'td', 'if', 'im', 'ca'} <= u
 
 
+OBS = {'pu', 'if', 'im', 'td', 'ca'}
+
+
+def request_lost(hh):
+    """mirror of Lean `KnownRequestLost`: units exist at the end, but an observable class was requested only before the
+    first request containing ProgramUnitClass and never again"""
+    u = unit_classes(hh)
+    return u is not None and (u & OBS) != ({c for s in hh for c in s} & OBS)
+
+
 FACT_CLASS = {'import': 'im', 'typedef': 'td', 'interface': 'if', 'call': 'ca', 'unit': 'pu'}
 
 SKIP_REGEX = {'nested-end-then-module'}
@@ -374,11 +384,31 @@ def gen_call(g, rng, callee=None):
     if rng.random() < 0.85:
         st += O('(') + commalist([gen_expr(rng) for _ in range(rng.randint(0, 3))]) + O(')')
     if rng.random() < 0.25:
-        st = W('if') + O('(') + gen_expr(rng, 1) + O(rng.choice(['>', '==', '<'])) + gen_expr(rng, 1) + O(')') + st
+        lhs = gen_expr(rng, 1)
+        if rng.random() < 0.4:
+            # parentheses nested 2-3 deep inside the condition
+            lhs = rng.choice([W('arr') + O('(') + W('f') + O('(') + W('n') + O(')') + O(')'),
+                              W('f') + O('(') + W('arr') + O('(') + W('f') + O('(') + W('n') + O('+') + W('1') + O(')') + O(')') + O(')'),
+                              O('(') + O('(') + W('x') + O('+') + W('arr') + O('(') + W('n') + O(')') + O(')') + O('*') + W('y') + O(')')])
+        st = W('if') + O('(') + lhs + O(rng.choice(['>', '==', '<'])) + gen_expr(rng, 1) + O(')') + st
     return st
 
 
-def gen_body_stmt(g, rng):
+def gen_inline_if(g, rng):
+    """inline IF with a break opportunity ('b' lexeme) between the condition and the action (call or assignment)"""
+    cond = gen_expr(rng, 1) + O(rng.choice(['>', '==', '<'])) + gen_expr(rng, 1)
+    if rng.random() < 0.4:
+        cond += O('.and.') + W('x') + O('>') + W('0')
+    if rng.random() < 0.5:
+        act = W('call', g.fresh('tgt')) + O('(') + commalist([gen_expr(rng) for _ in range(rng.randint(1, 3))]) + O(')')
+    else:
+        act = W(rng.choice(['x', 'y', 'zz'])) + O('=') + gen_expr(rng)
+    return W('if') + O('(') + cond + O(')') + [('b', '')] + act
+
+
+def gen_body_stmt(g, rng, feats=None):
+    if feats and feats.get('p_inline_if') and rng.random() < feats['p_inline_if']:
+        return [gen_inline_if(g, rng)]
     r = rng.random()
     if r < 0.45:
         return [gen_call(g, rng)]
@@ -477,7 +507,7 @@ def gen_routine(g, rng, depth, feats, siblings=()):
     if rng.random() < 0.2:
         out += gen_interface(g, rng, [], False)
     for _ in range(rng.randint(0, 4)):
-        out += gen_body_stmt(g, rng)
+        out += gen_body_stmt(g, rng, feats)
     if siblings and rng.random() < 0.4:
         out.append(gen_call(g, rng, rng.choice(siblings)))
     if kind == 'function':
@@ -558,10 +588,31 @@ def gen_comment(rng):
 
 
 def render_stmt(rng, st, lay):
-    """physical lines of one statement (first line not indented): continuation breaks only between lexemes"""
+    """physical lines of one statement (first line not indented): continuation breaks only between lexemes; a 'b'
+    lexeme is a break opportunity taken with probability lay['p_ifbreak']"""
     out = ['']
     n = len(st)
+
+    def do_break(need):
+        sp = rng.randint(0, 2)
+        lead = rng.random() < 0.4
+        cind = rng.randint(0, 8)
+        after = rng.randint(0, 2) if lead else 0
+        if need and sp == 0 and (after if lead else cind) == 0:
+            sp = 1
+        out[-1] += ' ' * sp + '&'
+        if rng.random() < lay['p_inline']:
+            out[-1] += ' ! ' + rng.choice(['cont', 'call zzz(1)', 'end module', "it's", '&', '"'])
+        for _ in range(2):
+            if rng.random() < lay['p_comment'] * 0.5:
+                out.append(gen_comment(rng))
+        out.append(' ' * cind + ('&' + ' ' * after if lead else ''))
+
     for i, (k, t) in enumerate(st):
+        if k == 'b':
+            if lay.get('p_ifbreak') and rng.random() < lay['p_ifbreak']:
+                do_break(False)
+            continue
         if k == 'w':
             t = recase(rng, t, lay['case'])
         out[-1] += t
@@ -569,19 +620,7 @@ def render_stmt(rng, st, lay):
             break
         need = k in 'ws' and st[i + 1][0] in 'ws'
         if rng.random() < lay['p_break'] and not (i == 0 and t[0].isdigit()):
-            sp = rng.randint(0, 2)
-            lead = rng.random() < 0.4
-            cind = rng.randint(0, 8)
-            after = rng.randint(0, 2) if lead else 0
-            if need and sp == 0 and (after if lead else cind) == 0:
-                sp = 1
-            out[-1] += ' ' * sp + '&'
-            if rng.random() < lay['p_inline']:
-                out[-1] += ' ! ' + rng.choice(['cont', 'call zzz(1)', 'end module', "it's", '&', '"'])
-            for _ in range(2):
-                if rng.random() < lay['p_comment'] * 0.5:
-                    out.append(gen_comment(rng))
-            out.append(' ' * cind + ('&' + ' ' * after if lead else ''))
+            do_break(need)
         else:
             out[-1] += ' ' * (rng.randint(1, 2) if need else rng.choice([0, 0, 1]))
     return out
@@ -629,6 +668,12 @@ def render(rng, prog, lay):
             if opens:
                 depth += 1
             prev_simple = simple(st)
+            if lay.get('p_head') and (first == 'contains' or (opens and first not in ('interface', 'abstract', 'type'))) \
+                    and rng.random() < lay['p_head']:
+                # comment / blank lines at the head of a nested section (after CONTAINS, after a unit header)
+                for j in range(rng.randint(1, 3)):
+                    lines.append(rng.choice(['', ind + f'! head note {len(lines)}', f'!> head doc {len(lines)}', '  ! ' + '-' * 10 + str(len(lines))]))
+                joinable = False
             if rng.random() < lay['p_comment']:
                 lines.append(gen_comment(rng) if rng.random() < 0.8 or first not in BODY_HEADS else ind + '!$loki note')
                 joinable = False
@@ -655,6 +700,12 @@ def all_histories(rng, n):
     for _ in range(n):
         k = rng.randint(1, 3)
         out.append([rng.choice(subsets) for _ in range(k)])
+    # family "early request, program units, early classes requested again" (must equal the union request)
+    early = rng.choice([['im'], ['td', 'im'], ['ca'], ['if', 'im', 'td', 'ca'], ['im', 'ca'], ['td', 'if', 'im', 'ca']])
+    again = [c for c in early if rng.random() < 0.8] or early
+    if 'td' in again or 'if' in again:
+        again = sorted(set(again) | {'td', 'if', 'im', 'ca'})     # stay outside unrequested-classes-before-block
+    out[rng.randrange(len(out))] = [early, rng.choice([['pu'], ['pu', 'de']]), again + (['pu'] if rng.random() < 0.3 else [])]
     return out
 
 
@@ -669,7 +720,7 @@ class C19(Prop):
     props_module = 'LokiModel.Props.C19'
     findings_module = 'LokiModel.Findings.C19'
     driver = 'Drivers/C19.lean'
-    theorems = ['C19_classes_pinned', 'C19_patterns_pinned', 'C19_incremental_commutes_partial', 'C19_incremental_order_irrelevant',
+    theorems = ['C19_classes_pinned', 'C19_patterns_pinned', 'C19_incremental_commutes_partial', 'C19_incremental_commutes_narrow', 'C19_incremental_order_irrelevant',
                 'C19_incremental_two', 'C19_incremental_general', 'C19_layout_invariant_tokens', 'C19_toks_leading_blank',
                 'C19_reader_spans_ok', 'C19_reader_items_ok']
     design_ref = 'DESIGN.md 4.C C19'
@@ -734,6 +785,8 @@ class C19(Prop):
             hh = [[str(c) for c in s] for s in h]
             hs.append(A('skipped') if skip or block_class_alone(unit_classes(hh)) else run_regex(text, hh))
         out.append(hs)
+        out.append([A('lost')] + [A('true' if request_lost([[str(c) for c in s] for s in h]) else 'false')
+                                  for h in field(req, 'orders')[1:]])
         return out
 
     def oracle(self, req):
@@ -756,13 +809,35 @@ class C19(Prop):
             a = run_regex(text, hh)
             b = run_regex(text, [union])
             if dumps(a) != dumps(b):
-                c2 = 'request-before-program-units' if 'pu' not in hh[0] else cls
+                # only histories that really lose a class (requested before the units existed, never again) are the
+                # known finding; a history that re-requests the early classes must agree with the union request
+                c2 = 'request-before-program-units' if request_lost(hh) else cls
                 fails.append(Failure(f'history {hh} != single request {union}: {dumps(a)[:200]} vs {dumps(b)[:200]}', c2))
             extra = [f for f in a if isinstance(f, list) and FACT_CLASS.get(head(f)) not in union]
             if extra:
                 c3 = 'unrequested-classes-before-block' if block_class_alone(unit_classes(hh)) else cls
                 fails.append(Failure(f'history {hh} reports facts of classes never requested: {dumps(extra[0])}', c3))
         return fails
+
+    def shrink_candidates(self, req):
+        """structure-preserving smaller requests: one history only, then removal of line chunks (coarse to fine)"""
+        lines = field(req, 'lines')[1:]
+        hists = field(req, 'orders')[1:]
+        if len(hists) > 1:
+            for h in hists:
+                yield [A('file'), [A('lines')] + lines, [A('orders'), h]]
+        for h in hists:
+            if len(h) > 1:
+                for i in range(len(h)):
+                    yield [A('file'), [A('lines')] + lines, [A('orders'), h[:i] + h[i + 1:]] + [x for x in hists if x is not h]]
+        n = len(lines)
+        size = max(1, n // 2)
+        while size >= 1:
+            for start in range(0, n, size):
+                yield [A('file'), [A('lines')] + lines[:start] + lines[start + size:], [A('orders')] + hists]
+            if size == 1:
+                break
+            size //= 2
 
     def classes(self):
         return ['nested-end-then-module', 'request-before-program-units', 'unrequested-classes-before-block']
